@@ -334,6 +334,13 @@ func (p *Prog) Reach(g *callgraph.Graph, roots []*ssa.Function, cut map[*ssa.Fun
 		work = work[:len(work)-1]
 		if n := g.Nodes[f]; n != nil {
 			for _, e := range n.Out {
+				// a library function calling back a closure of this package (sync.Once.Do(f), sort.Slice(less)):
+				// the call graph merges all function values that reach the library's parameter, so any use of the
+				// library anywhere would "reach" every such closure. Closures are instead reached from the function
+				// that creates them (below).
+				if c := e.Callee.Func; c != nil && c.Parent() != nil && p.InPkg(c) && !p.InPkg(f) {
+					continue
+				}
 				push(e.Callee.Func)
 			}
 		}
